@@ -24,6 +24,9 @@ func genPlan(rng *rand.Rand, sc *Scenario, transport string) []Step {
 	if rng.IntN(3) != 0 {
 		at = rng.IntN(n/2 + 1)
 	}
+	if at > 0 && rng.IntN(3) == 0 {
+		plan = append(plan, Step{At: rng.IntN(at + 1), Op: "setup"})
+	}
 	plan = append(plan, Step{At: at, Op: "play"})
 	gateable := transport == "tcp" || transport == "udp"
 	cycles := rng.IntN(3)
@@ -145,7 +148,12 @@ type runStats struct {
 func runScenario(c *corr.Ctx, sc *Scenario, name string, st *runStats) {
 	st.runs++
 	h := &harness{sc: sc, pk: genPackets(sc)}
-	if err := h.run(); err != nil {
+	tStart := time.Now()
+	err := h.run()
+	if os.Getenv("PIPE_DEBUG") != "" {
+		fmt.Fprintf(os.Stderr, "-- %s took %v (write phase %v)\n", name, time.Since(tStart).Round(time.Millisecond), h.tWrite.Round(time.Millisecond))
+	}
+	if err != nil {
 		st.infra++
 		c.Dist("infra-error")
 		if st.infra <= 5 {
@@ -245,6 +253,33 @@ func sweepScenario(seed uint64, tls bool, transport string) *Scenario {
 	return sc
 }
 
+// srtpFollowedWrap: TLS+SRTP readers that are playing while every format's sequence number wraps.
+func srtpFollowedWrap(seed uint64) *Scenario {
+	return &Scenario{Seed: seed, Mode: "exact", TLS: true, Cap: 256, Medias: [][]int{{96, 97}, {98}}, N: 1500, Pace: 2,
+		SRTPWrap: true, SeqStart: 65536 - 300,
+		Readers: []ReaderSpec{
+			{Transport: "tcp", Medias: []int{0, 1}, Plan: []Step{{At: 0, Op: "play"}, {At: 500, Op: "pause"}, {At: 1200, Op: "play"}}},
+			{Transport: "udp", Medias: []int{1, 0}, Plan: []Step{{At: 0, Op: "play"}}},
+			{Transport: "tcp", Medias: []int{0, 1}, Plan: []Step{{At: 0, Op: "play"}}},
+		}}
+}
+
+// srtpMissedWrap reproduces the known finding c01-srtp-roc-desync: the reader is told the rollover
+// counters in the SETUP response, the sequence number of the format wraps before its PLAY, and every
+// packet it is then sent fails SRTP authentication (RFC 3711 index estimation has no starting point).
+// arb: the same with arbitrary sequence numbers and a reader that joins late.
+func srtpMissedWrap(seed uint64, arb bool) *Scenario {
+	sc := &Scenario{Seed: seed, Mode: "exact", TLS: true, Cap: 256, Medias: [][]int{{96}}, N: 900, Pace: 2, NoModel: true,
+		Readers: []ReaderSpec{{Transport: "tcp", Medias: []int{0}, Plan: []Step{{At: 10, Op: "setup"}, {At: 400, Op: "play"}}}}}
+	if arb {
+		sc.ArbSeq = true
+	} else {
+		sc.SRTPWrap = true
+		sc.SeqStart = 65536 - 200
+	}
+	return sc
+}
+
 func Run(c *corr.Ctx) {
 	c.Rule("real gortsplib Server + ServerStream (1..3 medias x 1..2 formats) and 1..4 real reading Clients over UDP (with injected loss / duplication / reordering), TCP interleaved, HTTP and WebSocket tunnels, plain and TLS+SRTP; the writer writes N packets (payload 1..max, arbitrary timestamps / markers, consecutive sequence numbers from a random start incl. wrap, arbitrary ones on reliable transports); readers join, PAUSE/PLAY and leave at seeded moments (exact: between writes; racy: concurrently), connections are stalled to fill the write queue; every callback is recorded; the property is evaluated on the recorded history, and the compiled Lean model is run on the logged history (writes with their per-reader push outcome, control operations where their effect was observed, UDP datagram arrivals) and must reproduce every reader's callback list")
 	st := &runStats{}
@@ -294,6 +329,10 @@ func Run(c *corr.Ctx) {
 		sc := sweepScenario(c.Rng.Uint64(), sw.tls, sw.tr)
 		runScenario(c, sc, fmt.Sprintf("sweep/%s/tls=%v", sw.tr, sw.tls), st)
 	}
+
+	runScenario(c, srtpFollowedWrap(c.Rng.Uint64()), "srtp-wrap-followed", st)
+	runScenario(c, srtpMissedWrap(c.Rng.Uint64(), false), "srtp-wrap-missed", st)
+	runScenario(c, srtpMissedWrap(c.Rng.Uint64(), true), "srtp-arbseq-late-join", st)
 
 	// random scenarios, each a few times (the schedule differs from run to run)
 	budget := time.Duration(c.N(28, 600)) * time.Second
